@@ -161,3 +161,12 @@ func vNondetWord(label, charset string, maxlen int) string { s, _ := vnext(label
 
 // vSymbolic is true under the symbolic engine and false in native replays.
 func vSymbolic() bool { return false }
+
+func vNondetWordN(label, charset string, minlen, maxlen int) string { s, _ := vnext(label); return s }
+
+// vPred is an uninterpreted predicate over strings; in a replay its
+// interpretation comes from the counterexample (absent points are false).
+func vPred(name, arg string) bool {
+	vs := vReplayVals["pred:"+name+":"+arg]
+	return len(vs) > 0 && vs[0] == "true"
+}
